@@ -3,7 +3,8 @@
 //! catch_unwind around every operation; recorder sinks tell which destination received which entry.
 use crate::common::{Ctx, Out, Rng};
 use crate::sx::{self, Sx};
-use metrique_writer::sink::{global_entry_sink, AttachGlobalEntrySink, AttachHandle};
+use metrique_writer::sink::{global_entry_sink, AttachGlobalEntrySink, AttachGlobalEntrySinkExt, AttachHandle};
+use metrique_writer_core::{EntryIoStream, IoStreamError};
 use metrique_writer_core::global::{ThreadLocalTestSinkGuard, TokioRuntimeTestSinkGuard};
 use metrique_writer_core::sink::FlushWait;
 use metrique_writer_core::{BoxEntry, BoxEntrySink, Entry, EntrySink, EntryWriter, GlobalEntrySink, Observation, Unit, MetricFlags, ValidationError, Value, ValueWriter};
@@ -418,9 +419,16 @@ global_entry_sink! { RaceG }
 /// One run: `threads` appender threads each try_append `per` entries while another thread drops the attach handle.
 /// Appender 0 optionally has a thread-local test sink (its entries must all go there, untouched by the detach).
 /// Returns (outcomes per entry in program order per thread: (thread, entry, ok), the recorders' log).
-fn race_once(threads: usize, per: usize, spin: u64, tl_on_first: bool) -> (Vec<(usize, u64, bool)>, Vec<Ev>) {
+/// The stream behind a real BackgroundQueue (attach_to_stream): written by the queue's own thread.
+struct RecStream { id: u64, log: Log }
+impl EntryIoStream for RecStream {
+    fn next(&mut self, entry: &impl Entry) -> Result<(), IoStreamError> { let eid = read_id(entry); self.log.lock().unwrap().push(Ev::Recv(self.id, eid)); Ok(()) }
+    fn flush(&mut self) -> std::io::Result<()> { Ok(()) }
+}
+fn race_once(threads: usize, per: usize, spin: u64, tl_on_first: bool, real_queue: bool) -> (Vec<(usize, u64, bool)>, Vec<Ev>) {
     let log: Log = Arc::new(Mutex::new(vec![]));
-    let handle = RaceG::attach((RecSink { id: 1, log: log.clone() }, JoinProbe { id: 1, log: log.clone() }));
+    let handle = if real_queue { RaceG::attach_to_stream(RecStream { id: 1, log: log.clone() }) }
+                 else { RaceG::attach((RecSink { id: 1, log: log.clone() }, JoinProbe { id: 1, log: log.clone() })) };
     let barrier = std::sync::Barrier::new(threads + 1);
     let mut outcomes = vec![];
     std::thread::scope(|sc| {
@@ -441,6 +449,8 @@ fn race_once(threads: usize, per: usize, spin: u64, tl_on_first: bool) -> (Vec<(
         barrier.wait();
         for _ in 0..spin { std::hint::spin_loop(); }
         drop(handle);
+        // with the real queue the join is the queue handle's drop: everything accepted must be written by now
+        if real_queue { log.lock().unwrap().push(Ev::Joined(1)); }
         for j in joins { outcomes.extend(j.join().unwrap()); }
     });
     let seen = log.lock().unwrap().clone();
@@ -467,7 +477,7 @@ fn race_verdict(threads: usize, per: usize, tl_on_first: bool, outcomes: &[(usiz
             if failed && o.2 { return Some(format!("thread {t}: an append succeeded after an earlier one was handed back")); }
             if !o.2 { failed = true; }
         }
-        // program order within the sink's log
+        // program order within the sink's log (the queue preserves the order of one producer)
         let pos: Vec<usize> = mine.iter().filter(|o| o.2).map(|o| log.iter().position(|x| matches!(x, Ev::Recv(_, y) if *y == o.1)).unwrap()).collect();
         if pos.windows(2).any(|w| w[0] > w[1]) { return Some(format!("thread {t}: entries delivered out of program order")); }
     }
@@ -503,8 +513,10 @@ fn run_race(ctx: &Ctx) {
         let per = *rng.pick(&[1usize, 1, 2, 5, 20, 60]);
         let spin = *rng.pick(&[0u64, 10, 100, 1000, 5000, 20000]);
         let tl = rng.chance(1, 4);
-        let (outcomes, log) = race_once(threads, per, spin, tl);
-        let case = Sx::L(vec![sx::n(threads as u64), sx::n(per as u64), sx::n(tl as u64)]);
+        let real_queue = rng.chance(1, 3);
+        let (outcomes, log) = race_once(threads, per, spin, tl, real_queue);
+        if real_queue { out.count("race_runs_behind_real_background_queue"); }
+        let case = Sx::L(vec![sx::n(threads as u64), sx::n(per as u64), sx::n(tl as u64), sx::n(real_queue as u64)]);
         if let Some(why) = race_verdict(threads, per, tl, &outcomes, &log) { out.fail(format!("append racing detach: {why}"), &case); }
         let delivered = outcomes.iter().filter(|o| o.2).count();
         out.count(if delivered == 0 { "race_all_handed_back" } else if delivered == outcomes.len() { "race_all_delivered" } else { "race_mixed_outcomes" });
